@@ -25,24 +25,32 @@ CLAIMS = {
 }
 
 CLAIMS['C01'] = dict(
-    text=('PARTIAL: the VM instruction-set kernel the translator compiles against is proved against the reference '
-          'operator definitions for all operands: + - * / %% on Int (exact mathematical result or a build error on '
-          'overflow / zero divisor, never a wrapped value), Float (operand order pinned, arithmetic uninterpreted), '
-          'string and list concatenation, and the stack discipline of each handler (left operand = top of stack, '
-          'everything below unchanged, nothing but the value stack modified). Not a whole-compiler correctness proof: '
-          'translator arm selection, calls, modules, copy, format, map/filter/reduce are not covered (see evidence not_covered).'),
+    text=('PARTIAL: both sides of the compile/execute pipeline are under contract function by function, not as one simulation theorem. '
+          'VM side (real handlers, whole-stack postconditions + frames, for all operands): + - * / %% on Int (exact mathematical result or a '
+          'build error, never a wrapped value), Float (operand order and operator pinned), string/list concatenation, ordering '
+          'comparisons, equality (deep, ordered tuples, NULL comparable with anything, type mismatch = error), short-circuit && / ||, '
+          'conditional / select jumps, not, relative jumps, range = the inclusive arithmetic progression, map / filter / reduce over lists, '
+          'tuples and strings against the reference (incl. arity errors), selector lookup, field / element / copy-with-override (replace in '
+          'place, append new, type change = error except NULL), in, is (published type names), casts, fail, function call arity, module '
+          'value construction, and the dispatch loop (every opcode reaches its documented handler with the right arguments and strictness). '
+          'Translator side: for nearly every arm of translate_expr / translate_stmt the structure of the emitted opcode sequence (operand '
+          'order, the opcode, jump offsets landing exactly past the skipped fragment, Bind vs BindOver) against an opaque recursive call '
+          'that only appends. NOT covered: the composition of the two into a whole-program theorem, VM::run termination, format '
+          'template text, regex, imports; the bounded table of 57 programs samples those.'),
     design_ref='DESIGN.md §5 C01',
-    note=('Trusted: Verus/Z3; extraction rules listed in evidence; f64 arithmetic uninterpreted (R6); Rc/Vec/String models of vstd; '
-          'List values carry one position per element (requires); translator invariants (stack depth >= 2 at a binary op) are '
-          'caller obligations not discharged.'),
-    technique='Verus contracts on extracted VM arithmetic/handlers against spec-level operator semantics',
+    note=('Trusted: Verus/Z3; extraction rules listed in evidence; f64 arithmetic/comparison values uninterpreted (R6); Rc/Vec/String models of vstd; '
+          'VM::fcall_impl as a pure function of (function, arguments); translate_expr only appends; caller obligations (translator invariants: '
+          'stack depth at each handler, one position per list element, programs shorter than 2^31 ops) are stated as requires and not discharged.'),
+    technique='Verus contracts on extracted VM handlers, runtime hooks and translator arms against spec-level reference semantics',
 )
 CLAIMS['C04'] = dict(
     text=('PARTIAL: every extracted function under contract is proved free of arithmetic overflow, division by zero, '
           'out-of-range index/cast, unwrap on None/Err, reachable panic!/unreachable! and non-termination, for all inputs '
           'satisfying its stated precondition - in particular integer arithmetic on user values (VM add/sub/mul/div/modulus) '
-          'and the precedence parser (parse_op terminates, op_expression panic unreachable). The parser-combinator layer, type '
-          'checker, converters dependencies and stack depth are not covered.'),
+          'the range builtin, format placeholder/argument pairing (both Format arms and both template parsers), casts, map/filter/reduce arity, '
+          'selector indices, the string scanner, and the precedence parser (parse_op terminates). The parser-combinator layer, type '
+          'checker, converters\' dependencies, stack depth and VM::run termination are not covered deductively; bounded stand-ins fuzz them '
+          '(token mutations of every shipped .ucg file, garbage input, nesting up to the property\'s bound).'),
     design_ref='DESIGN.md §5 C04',
     note=('Trusted: Verus/Z3; extraction rules listed in evidence; preconditions that are translator invariants (stack depth) are '
           'listed as caller obligations, not discharged.'),
